@@ -20,7 +20,11 @@ What is proved instead:
     for procedures without OUT parameters in a fresh session;
   * `goto_resolved` — for every well-labelled statement (LEAVE/ITERATE included) no placeholder
     index (-1 / -2) survives compilation;
-  * `scan_neutral` — the scope scans of OpCode_Goto are stack-neutral over the code of jump-free statements.
+  * `scan_neutral` — the scope scans of OpCode_Goto are stack-neutral over the code of jump-free statements;
+  * `goto_fwd_skips_scopeEnd` — for all code: a forward Goto whose target is preceded by a ScopeEnd
+    arrives with that scope still on the stack (the mechanism of the regions `leave_block_scope_leak`,
+    `else_block_scope_leak`, `iterate_repeat_block_scope_leak`); `jumpFree_not_iterateRepeatEndBlock`
+    — the guarded fragment lies outside the last of them.
 -/
 import Gms.Lemmas.ProcLang
 import Gms.Generated.C24
@@ -60,6 +64,85 @@ theorem exec_sem_agree (sem1 sem2 : Sem) : ∀ n s σ, hasBareDeclare s = false 
       have hr' : hasRepeat b = false := by simpa [hasRepeat] using hr
       simp only [exec, ih b σ hd' hr', fun σ1 => ih (.loop l b) σ1 hd hr]
     | _ => simp only [exec]
+
+/-! ## The scan of a forward `Goto` never covers the op in front of its target
+
+This is the mechanism shared by the three scope-leak findings (`leave_block_scope_leak`,
+`else_block_scope_leak`, `iterate_repeat_block_scope_leak`): in each of them `ConvertStmt` emits a
+forward `Goto` whose target is preceded by a `ScopeEnd`. -/
+
+/-- General form of `goto_fwd`: a forward `Goto` over the code `E` applies the scope effects of
+`E.dropLast` only — the op at `Index-1` is neither scanned nor executed. -/
+theorem goto_fwd_scan (A E P : List Op) (t : Option Name) (σ : Store) (st : List Scope) (hE : E ≠ [])
+    (h : scanList true E.dropLast σ.stack = some st) :
+    gotoStep (A ++ Op.goto t ((A.length + 1 + E.length : Nat) : Int) :: (E ++ P)) A.length
+        ((A.length + 1 + E.length : Nat) : Int) σ
+      = .running ⟨((A.length + 1 + E.length : Nat) : Int) - 1, { σ with stack := st }⟩ := by
+  unfold gotoStep
+  have hpos : 0 < E.length := List.length_pos_iff.mpr hE
+  have h1 : (A.length : Int) ≤ ((A.length + 1 + E.length : Nat) : Int) := by omega
+  simp only [h1, if_true]
+  have h2 : (A.length : Int) < ((A.length + 1 + E.length : Nat) : Int) - 1 := by omega
+  have h3 : (((A.length + 1 + E.length : Nat) : Int) - 1).toNat = A.length + E.length := by omega
+  simp only [h2, if_true, h3]
+  have h4 : ¬ (A.length + E.length > (A ++ Op.goto t ((A.length + 1 + E.length : Nat) : Int) :: (E ++ P)).length) := by
+    simp; omega
+  simp only [h4, if_false]
+  have h5 : ((A ++ Op.goto t ((A.length + 1 + E.length : Nat) : Int) :: (E ++ P)).drop A.length).take (A.length + E.length - A.length)
+      = Op.goto t ((A.length + 1 + E.length : Nat) : Int) :: E.dropLast := by
+    rw [List.drop_left]
+    have : A.length + E.length - A.length = (E.length - 1) + 1 := by omega
+    rw [this, List.take_succ_cons, List.take_append_of_le_length (by omega), List.dropLast_eq_take]
+  rw [h5]
+  simp only [scanList, applyScope, h]
+
+/-- A forward `Goto` whose target is preceded by a `ScopeEnd`: the machine arrives at the target
+with the stack produced by the ops *before* that `ScopeEnd` — the scope it closes is still there
+(sequential execution would have popped it). For every code `A`, `E`, `P`, label and store. -/
+theorem goto_fwd_skips_scopeEnd (A E P : List Op) (t l : Option Name) (i : Int) (σ : Store) (st : List Scope)
+    (h : scanList true E σ.stack = some st) :
+    gotoStep (A ++ Op.goto t ((A.length + 1 + (E ++ [Op.scopeEnd l i]).length : Nat) : Int) ::
+          ((E ++ [Op.scopeEnd l i]) ++ P)) A.length
+        ((A.length + 1 + (E ++ [Op.scopeEnd l i]).length : Nat) : Int) σ
+      = .running ⟨((A.length + 1 + (E ++ [Op.scopeEnd l i]).length : Nat) : Int) - 1, { σ with stack := st }⟩ :=
+  goto_fwd_scan A (E ++ [Op.scopeEnd l i]) P t σ st (by simp) (by simpa using h)
+
+/-- The jump-free fragment (the guard of `compile_correct`) lies outside the region
+`iterate_repeat_block_scope_leak`. -/
+theorem jumpFree_not_iterateRepeatEndBlock : ∀ (s : Stmt) (env : List (Name × Bool)), jumpFree s = true →
+    hasIterateRepeatEndBlock env s = false := by
+  intro s
+  induction s with
+  | seq a b iha ihb =>
+    intro env h
+    simp only [jumpFree, Bool.and_eq_true] at h
+    simp only [hasIterateRepeatEndBlock, iha env h.1, ihb env h.2, Bool.or_self]
+  | block l b ih =>
+    intro env h
+    simp only [jumpFree] at h
+    simp only [hasIterateRepeatEndBlock]
+    exact ih _ h
+  | ite c t e iht ihe =>
+    intro env h
+    simp only [jumpFree, Bool.and_eq_true] at h
+    simp only [hasIterateRepeatEndBlock, iht env h.1, ihe env h.2, Bool.or_self]
+  | «while» l c b ih =>
+    intro env h
+    simp only [jumpFree] at h
+    simp only [hasIterateRepeatEndBlock]
+    exact ih _ h
+  | «repeat» l b c ih =>
+    intro env h
+    simp only [jumpFree] at h
+    simp only [hasIterateRepeatEndBlock]
+    exact ih _ h
+  | loop l b ih =>
+    intro env h
+    simp only [jumpFree] at h
+    simp only [hasIterateRepeatEndBlock]
+    exact ih _ h
+  | iterate l => intro env h; simp [jumpFree] at h
+  | _ => intro env _; simp [hasIterateRepeatEndBlock]
 
 /-! ## No placeholder index survives compilation of a well-labelled statement -/
 
@@ -555,6 +638,31 @@ theorem finding_stale_label_iterate :
       = some [some 1, some 2, some 3, some 50, some 70, some 80] := by
   decide
 
+/-- Limit of the Impl model inside `stale_label_iterate` (`staleIntoClosedBlock`): the REPEAT `l0`
+sits in a block that declares `v4`; the ITERATE of the later WHILE `l0` jumps back to its UNTIL test
+after that block has been closed. The model stops with errno 1105 (`v4` does not resolve). The real
+engine finishes the CALL with trace 11,200,400: the unresolved name evaluates to the value cached in
+the AST node by the previous evaluation (replayed by the harness corpus; such cases carry the
+`(norun)` flag and are compared at compile level only). The plain stale-label witness `wStale` is
+not in this sub-class. -/
+def wStaleClosed : Stmt :=
+  .block none (.seq (.declare 3 (some 0)) (.seq
+    (.block none (.seq (.declare 4 (some 10))
+      (.repeat (some 0) (.seq (.set 3 (.add (.var 3) (.lit 1))) (.emit (.add (.var 4) (.var 3))))
+        (.or (.le (.lit 1) (.var 3)) (.lt (.var 4) (.lit 0))))))
+    (.while (some 0) (.lt (.var 3) (.lit 4))
+      (.seq (.set 3 (.add (.var 3) (.lit 1))) (.seq (.ite (.eq (.var 3) (.lit 3)) (.iterate 0) .skip)
+        (.emit (.mul (.var 3) (.lit 100))))))))
+
+theorem model_limit_stale_into_closed_block :
+    staleIterate wStaleClosed = true ∧ staleIntoClosedBlock wStaleClosed = true ∧
+    staleIntoClosedBlock wStale.body = false ∧
+    (callImpl 200 ⟨[], wStaleClosed⟩ [] (sess0 none)).1 = .err 1105 ∧
+    (callImpl 200 ⟨[], wStaleClosed⟩ [] (sess0 none)).2.log.reverse = [some 11, some 200] ∧
+    (callSpec Sem.mysql 60 ⟨[], wStaleClosed⟩ [] (sess0 none)).map (fun r => (r.1, r.2.log.reverse))
+      = some (.ok, [some 11, some 200, some 400]) := by
+  decide
+
 /-- OUT parameter not reset: the body sees the caller's value. -/
 def wOutParam : Proc := { params := outR, body := (.block none (.emit (.var 0))) }
 
@@ -588,6 +696,69 @@ theorem finding_iterate_repeat_checks_until :
     (callImpl 200 ⟨outR, wIterRepeat⟩ [.uvar 0] (sess0 none)).2.log.reverse = [some 1, some 2] ∧
     (callSpec Sem.mysql 60 ⟨outR, wIterRepeat⟩ [.uvar 0] (sess0 none)).map (fun r => r.2.log.reverse) = some [some 1, some 2, some 4] ∧
     (callSpec Sem.gms 60 ⟨outR, wIterRepeat⟩ [.uvar 0] (sess0 none)).map (fun r => r.2.log.reverse) = some [some 1, some 2] := by
+  decide
+
+/-- ITERATE of a REPEAT label from inside the BEGIN…END block that ends the REPEAT body. On the
+first pass the ITERATE is a forward Goto to the UNTIL test; the block's ScopeEnd sits right in
+front of that test and is skipped (`goto_fwd_skips_scopeEnd`), so the inner `x = 2` keeps
+shadowing the outer `x = 1` after the loop. Both readings of ITERATE (restart / check UNTIL) give 1. -/
+def wIterRepBlock : Proc := { params := outR, body :=
+  (.block none (.seq (.declare 3 (some 1)) (.seq (.declare 4 (some 0)) (.seq
+    (.repeat (some 0)
+      (.seq (.set 4 (.add (.var 4) (.lit 1)))
+        (.block none (.seq (.declare 3 (some 2)) (.ite (.eq (.var 4) (.lit 1)) (.iterate 0) .skip))))
+      (.le (.lit 1) (.var 4)))
+    (.set 0 (.var 3)))))) }
+
+theorem finding_iterate_repeat_block_scope_leak :
+    hasIterateRepeatEndBlock [] wIterRepBlock.body = true ∧
+    hasLeaveBlock [] wIterRepBlock.body = false ∧ hasElseBlock wIterRepBlock.body = false ∧
+    staleIterate wIterRepBlock.body = false ∧
+    -- the ITERATE of the first body copy is a forward Goto to op 10 (the UNTIL test), op 9 is a ScopeEnd
+    (compileProgram wIterRepBlock.body)[7]? = some (.goto (some 0) 10) ∧
+    (compileProgram wIterRepBlock.body)[9]? = some (.scopeEnd none 10) ∧
+    (callImpl 100 wIterRepBlock [.uvar 0] (sess0 none)).1 = .ok ∧
+    getU 0 (callImpl 100 wIterRepBlock [.uvar 0] (sess0 none)).2.uvars = some 2 ∧
+    (callSpec Sem.mysql 60 wIterRepBlock [.uvar 0] (sess0 none)).map (fun r => (r.1, getU 0 r.2.uvars)) = some (.ok, some 1) ∧
+    (callSpec Sem.gms 60 wIterRepBlock [.uvar 0] (sess0 none)).map (fun r => (r.1, getU 0 r.2.uvars)) = some (.ok, some 1) := by
+  decide
+
+/-- The same region with the ITERATE *in front of* the final block: the forward Goto pushes a scope
+for the block's ScopeBegin and never pops it, so the enclosing block's ScopeEnd pops that empty
+scope instead of its own and the enclosing block's `x = 3` survives the block. -/
+def wIterRepBlockOutside : Proc := { params := outR, body :=
+  (.block none (.seq (.declare 3 (some 1)) (.seq
+    (.block none (.seq (.declare 3 (some 3)) (.seq (.declare 4 (some 0))
+      (.repeat (some 0)
+        (.seq (.set 4 (.add (.var 4) (.lit 1))) (.seq (.ite (.eq (.var 4) (.lit 1)) (.iterate 0) .skip)
+          (.block none (.set 4 (.var 4)))))
+        (.le (.lit 1) (.var 4))))))
+    (.set 0 (.var 3))))) }
+
+theorem finding_iterate_repeat_block_scope_leak_outside :
+    hasIterateRepeatEndBlock [] wIterRepBlockOutside.body = true ∧
+    hasLeaveBlock [] wIterRepBlockOutside.body = false ∧ hasElseBlock wIterRepBlockOutside.body = false ∧
+    staleIterate wIterRepBlockOutside.body = false ∧
+    getU 0 (callImpl 100 wIterRepBlockOutside [.uvar 0] (sess0 none)).2.uvars = some 3 ∧
+    (callSpec Sem.mysql 60 wIterRepBlockOutside [.uvar 0] (sess0 none)).map (fun r => (r.1, getU 0 r.2.uvars)) = some (.ok, some 1) ∧
+    (callSpec Sem.gms 60 wIterRepBlockOutside [.uvar 0] (sess0 none)).map (fun r => (r.1, getU 0 r.2.uvars)) = some (.ok, some 1) := by
+  decide
+
+/-- Control for the region predicate: one more statement behind the block (the body no longer ends
+with a ScopeEnd) and the op machine agrees with the structured semantics again. -/
+def wIterRepBlockControl : Proc := { params := outR, body :=
+  (.block none (.seq (.declare 3 (some 1)) (.seq (.declare 4 (some 0)) (.seq
+    (.repeat (some 0)
+      (.seq (.set 4 (.add (.var 4) (.lit 1))) (.seq
+        (.block none (.seq (.declare 3 (some 2)) (.ite (.eq (.var 4) (.lit 1)) (.iterate 0) .skip)))
+        (.set 4 (.var 4))))
+      (.le (.lit 1) (.var 4)))
+    (.set 0 (.var 3)))))) }
+
+example : hasIterateRepeatEndBlock [] wIterRepBlockControl.body = false ∧
+    hasIterateRepeat [] wIterRepBlockControl.body = true ∧
+    getU 0 (callImpl 100 wIterRepBlockControl [.uvar 0] (sess0 none)).2.uvars = some 1 ∧
+    (callSpec Sem.gms 60 wIterRepBlockControl [.uvar 0] (sess0 none)).map (fun r => (r.1, getU 0 r.2.uvars)) = some (.ok, some 1) := by
   decide
 
 /-- REPEAT … UNTIL NULL leaves the loop. -/
